@@ -306,6 +306,20 @@ def cases():
                         els[k] = newlp
                         add('two duplicate data names within a loop header', '%s %s' % (hn, order), doc, 41, newlp, content(copy.deepcopy(host)),
                             window=(render(doc)[1][id(newlp)][0], render(doc)[1][id(newlp)][0] + len(names) + 2))
+                # a further loop ALL of whose header names are duplicates (one column; two columns): every column is dropped, so
+                # nothing of that loop is stored, and what follows it is unaffected
+                for ncol in (1, 2):
+                    doc = copy.deepcopy(host)
+                    els = doc[0][2]
+                    lp0 = [e for e in els if e[0] == 'loop'][0]
+                    if len(lp0[1]) < ncol:
+                        continue
+                    k = els.index(lp0)
+                    names = [n.upper() for n in lp0[1][:ncol]]
+                    newlp = ('loop', names, [[('dropped', S('dropped'))] * ncol, [('dropped2', S('dropped2'))] * ncol])
+                    els.insert(k + 1, newlp)
+                    add('every data name of a loop header is a duplicate', '%s %d column(s)' % (hn, ncol), doc, 41, newlp, content(copy.deepcopy(host)),
+                        window=(render(doc)[1][id(newlp)][0], render(doc)[1][id(newlp)][0] + ncol + 2))
                 # MISSING_SPACE between two quoted loop values
                 doc = copy.deepcopy(host)
                 els = doc[0][2]
